@@ -4,6 +4,7 @@ package server
 
 import (
 	"sort"
+	"unsafe"
 
 	"github.com/resgateio/resgate/server/rescache"
 )
@@ -19,6 +20,7 @@ func (s *Service) VerifCache() *rescache.Cache {
 // VerifSub is a snapshot of one subscription of a connection.
 type VerifSub struct {
 	RID          string
+	Ptr          uintptr // identity of the Subscription object
 	Direct       int
 	Indirect     int
 	IndirectSent int
@@ -55,6 +57,7 @@ func (s *Service) VerifConns() []VerifConn {
 			for rid, sub := range c.subs {
 				vs := VerifSub{
 					RID:          rid,
+					Ptr:          uintptr(unsafe.Pointer(sub)),
 					Direct:       sub.direct,
 					Indirect:     sub.indirect,
 					IndirectSent: sub.indirectsent,
